@@ -99,7 +99,7 @@ func c25Opts() gen.DiagramOpts {
 
 func genC25(seed int64, tier string, emit func(run.Case)) {
 	r := gen.New(seed)
-	n := tierN(tier, 20, 1500)
+	n := tierN(tier, 16, 1500)
 	if tier == "mutant" {
 		n = 8 // `vd run C25 mutant`: the first cases of the quick list, for validating the monitor against seeded mutants
 	}
